@@ -653,6 +653,24 @@ mod proofs_s {
             }
         };
     }
+    macro_rules! hi3 {
+        ($name:ident, $f:ident, $rw:ty, $($arg:expr),*) => {
+            #[kani::proof]
+            #[kani::unwind(3)]
+            #[kani::stub(crate::memory::ToFree::delete, crate::memory::verif_contracts::vf_delete_stub)]
+            fn $name() {
+                unsafe { $f::<$rw>($($arg),*) }
+            }
+        };
+    }
+    // budget-1 variants (one environment move per call, at most one retry): the every-change tier
+    hi3!(i1_send_multi_bcast_n2_b1, i_try_send, BCast<Pay>, 2, 1, false, SendKind::Multi, 1);
+    hi3!(i1_send_multi_mpmc_n2_b1, i_try_send, MPMC<Pay>, 2, 1, true, SendKind::Multi, 1);
+    hi3!(i2_recv_shared_bcast_n2_b1, i_try_recv, BCast<Pay>, 2, 1, false, 1, true);
+    hi3!(i2_recv_shared_mpmc_n2_b1, i_try_recv, MPMC<Pay>, 2, 1, true, 1, true);
+    hi3!(i2_recv_churn_bcast_n2_b1, i_try_recv_churn, BCast<Pay>, 2, 1, false, 1);
+    hi3!(i5_recv_args_shared_bcast_n2_b1, i_recv_wait_args, BCast<Pay>, 2, 1, false, 1, true, false);
+    hi3!(i5_recv_args_shared_mpmc_n2_b1, i_recv_wait_args, MPMC<Pay>, 2, 1, true, 1, true, false);
     // ---- layer I: real operations under the protocol environment
     hi!(i1_send_multi_bcast_n2_b2, i_try_send, BCast<Pay>, 2, 1, false, SendKind::Multi, 2);
     hi!(i1_send_multi_bcast_n2_b3, i_try_send, BCast<Pay>, 2, 2, false, SendKind::Multi, 3);
@@ -677,7 +695,7 @@ mod proofs_s {
     macro_rules! hf {
         ($name:ident, $f:ident, $rw:ty, $($arg:expr),*) => {
             #[kani::proof]
-            #[kani::unwind(6)]
+            #[kani::unwind(4)]
             #[kani::stub(crate::memory::ToFree::delete, crate::memory::verif_contracts::vf_delete_stub)]
             #[kani::stub(std::thread::sleep, crate::multiqueue::verif_contracts::vf_sleep)]
             fn $name() {
@@ -716,6 +734,9 @@ mod proofs_s {
 
     hi!(i2_recv_churn_bcast_n2_b2, i_try_recv_churn, BCast<Pay>, 2, 1, false, 2);
     hi!(i2_recv_churn_mpmc_n2_b2, i_try_recv_churn, MPMC<Pay>, 2, 1, true, 2);
+    hi!(i6_add_stream_sole_n1_b3, i_add_stream, BCast<Pay>, 1, 3, false);
+    hi!(i6_add_stream_sole_n2_b2, i_add_stream, BCast<Pay>, 2, 2, false);
+    hi!(i6_add_stream_shared_n1_b3, i_add_stream, BCast<Pay>, 1, 3, true);
     hi!(i13_drop_send_race_bcast_n2, i_drop_send_race, BCast<Pay>, 2, false);
     hi!(i13_drop_send_race_mpmc_n2, i_drop_send_race, MPMC<Pay>, 2, true);
     hi!(i12_remove_consumer_n2, i_consumer_count, BCast<Pay>, 2, true);
